@@ -170,7 +170,12 @@ async def run_case(chk, rng, lines, impl):
     if authed:
         # COM_CHANGE_USER on the authenticated connection
         mode = rng.choice(["right", "wrong", "unknown", "raise"])
-        target = rng.choice(["bob", "nopw", "dflt"]) if mode != "unknown" else "mallory"
+        target = rng.choice(["bob", "nopw", "dflt"]) if mode != "unknown" else rng.choice(["mallory", "mallory\u4e2d\u6587", "m\u00e9l"])
+        if rng.random() < 0.35:
+            # an earlier `SET character_set_results = ...` of this session: the ERR of a refused exchange names the user, and
+            # that name may not be encodable in the narrowed set
+            s.variables.set("character_set_results", rng.choice(["latin1", "ascii", "cp1251"]))
+            chk.count("change_user:narrowed-results-charset")
         if mode == "right":
             r2 = {"bob": scramble(meta["pw"].encode(), greet_data.rstrip(b"\0")), "nopw": b"", "dflt": scramble(b"dpw", greet_data.rstrip(b"\0"))}[target]
             plug = b"mysql_native_password"
